@@ -12,15 +12,10 @@
                          component i to that segment is g(t) = f_i(x + t e_j); g' (0) is the partial
                          derivative. *)
 From Coq Require Import List Arith Lia Reals Lra Psatz.
-From Coquelicot Require Import Coquelicot.
 From OV Require Import Base.Panic Base.Arith Model.Vector Model.Matrix Model.Newton
-  Proofs.Matrix Proofs.NewtonLoop Proofs.Newton Proofs.NewtonJac Proofs.NewtonReal Proofs.Newton2Real Proofs.Newton2Scalar.
+  Proofs.Matrix Proofs.NewtonLoop Proofs.Newton Proofs.NewtonJac Proofs.NewtonReal Proofs.Newton2Deriv Proofs.Newton2Real Proofs.Newton2Scalar.
 Import ListNotations.
 Local Open Scope R_scope.
-
-Lemma poly2_deriv (c0 c1 c2 t : R) :
-  derivable_pt_lim (fun t => c0 + c1 * t + c2 * (t * t)) t (c1 + 2 * c2 * t).
-Proof. apply is_derive_Reals. auto_derive; [exact I|ring]. Qed.
 
 Section FwdDiff.
 Variables (g g1 g2 : R -> R) (d B : R).
@@ -141,7 +136,7 @@ Proof.
   - intros u. cbn. exists (u / (1 / 4)). apply R_div_ok. lra.
   - exists J, evs. split; [exact EJ|]. split; [rewrite Rw; lia|]. split; [|split; [|split]].
     + intros t _. cbn. eexists. split; [reflexivity|]. cbn. ring.
-    + intros t. apply is_derive_Reals. auto_derive; [exact I|ring].
-    + intros t. apply is_derive_Reals. auto_derive; [exact I|ring].
+    + intros t. dpoly.
+    + intros t. dpoly.
     + rewrite Rabs_right; lra.
 Qed.
